@@ -78,7 +78,10 @@ var verifCatalogue = []verifStmt{
 	{"SELECT COALESCE(a, b), now(), count(DISTINCT x) FROM t", "", false},
 	{"SELECT a <=> b, a <> b, a != b, a <= b, a >= b FROM t", "", false},
 	{"SELECT a OR b AND c, (a OR b) AND c, NOT (a AND b) FROM t", "", false},
+	{"SELECT ! ~a, - -a, -+a, ~ -a, ! !a FROM t", "", false},
 	// --- quoting of leaves inside statements
+	{"SELECT `Left`.a, `ORDER`.b FROM t `Left` JOIN u AS `ORDER` ON `Left`.a = `ORDER`.b", "", false},
+	{"SELECT * FROM `Status`, `Select`.`From`", "", false},
 	{"SELECT `select`, `a b`, \"quoted id\", `back``tick` FROM `from`", "", false},
 	{"SELECT 'it''s', 'a\\'b', 'line\\nbreak', 'back\\\\slash' FROM t", "", false},
 	{"SELECT 'tab\there' FROM t", "C30-string-escape-asymmetry", false},
@@ -180,4 +183,32 @@ func VerifC30TriggerNode() {
 	sel := stmt.(*Select)
 	zzverif.Assert(len(sel.Trigger) == 1, "one-trigger")
 	zzverif.Assert(verifDump(sel.Trigger[0]) == verifDump(tr), "same-trigger")
+}
+
+// verifUnaryOps: the seven unary operators of the grammar (as written in a statement).
+var verifUnaryOps = []string{"+", "-", "~", "!", "binary", "_binary", "_utf8mb4"}
+
+// VerifC30UnaryStack: every stack of DEPTH unary operators applied directly (no parentheses) to a
+// column, e.g. `! ~a`, `- -a`, `-+a`: the statement is written with the operators separated by
+// blanks, parsed, printed, parsed again; the printed text must parse, be a fixpoint of printing and
+// give the same tree. (The printer has to keep apart operator pairs that the lexer would glue
+// into another token: `--` comment, `!~` regexp operator.)
+func VerifC30UnaryStack() {
+	depth := zzverif.Param("DEPTH")
+	sql := "select "
+	for i := 0; i < depth; i++ {
+		sql += verifUnaryOps[zzverif.Choice("op", len(verifUnaryOps))] + " "
+	}
+	sql += "a from t"
+	stmt1, err := Parse(sql)
+	if err != nil {
+		zzverif.Assert(false, "stacked-unary-operators-are-accepted")
+		return
+	}
+	s := String(stmt1)
+	stmt2, err2 := Parse(s)
+	zzverif.Reach("printed")
+	zzverif.Assert(err2 == nil, "printed-text-parses")
+	zzverif.Assert(String(stmt2) == s, "print-is-fixpoint")
+	zzverif.Assert(verifDump(stmt1) == verifDump(stmt2), "same-tree")
 }
